@@ -186,6 +186,43 @@ pub open spec fn ufe_list_post(es: Seq<Expr>, r: Seq<(String, TextRange)>) -> bo
         && (forall|j: int| 0 <= j < o.len() ==> ufe_post(&es[j], (#[trigger] o[j])@)) && r == flat(o)
 }
 
+/// L1 -> view level for extract_usefixtures_from_expr
+pub proof fn lemma_ufe_post(e: &Expr, r: Seq<(String, TextRange)>)
+    requires ufe_post(e, r),
+    ensures pairs_v(r) =~= spec_usefixtures_from_expr(e),
+    decreases e, 0int
+{
+    match e {
+        Expr::Call(_) => { lemma_usefix_post(e, r); }
+        Expr::List(l) => { lemma_ufe_list_post(l.elts@, r); }
+        Expr::Tuple(t) => { lemma_ufe_list_post(t.elts@, r); }
+        _ => {}
+    }
+}
+pub proof fn lemma_ufe_list_post(es: Seq<Expr>, r: Seq<(String, TextRange)>)
+    requires ufe_list_post(es, r),
+    ensures pairs_v(r) =~= ufe_from(es, 0),
+    decreases es, 1int
+{
+    let o = choose|o: Seq<Vec<(String, TextRange)>>| #![trigger flat(o)] o.len() == es.len()
+        && (forall|j: int| 0 <= j < o.len() ==> ufe_post(&es[j], (#[trigger] o[j])@)) && r == flat(o);
+    assert forall|j: int| 0 <= j < o.len() implies pairs_v((#[trigger] o[j])@) == spec_usefixtures_from_expr(&es[j]) by {
+        lemma_ufe_post(&es[j], o[j]@);
+    }
+    lemma_ufe_flat(es, o, 0);
+}
+pub proof fn lemma_ufe_flat(es: Seq<Expr>, o: Seq<Vec<(String, TextRange)>>, k: int)
+    requires o.len() == es.len(), 0 <= k <= es.len(),
+        forall|j: int| 0 <= j < o.len() ==> pairs_v((#[trigger] o[j])@) == spec_usefixtures_from_expr(&es[j]),
+    ensures pairs_v(flat_from(o, k)) =~= ufe_from(es, k),
+    decreases es.len() - k
+{
+    if k < es.len() {
+        lemma_ufe_flat(es, o, k + 1);
+        assert(pairs_v(o[k]@ + flat_from(o, k + 1)) =~= pairs_v(o[k]@) + pairs_v(flat_from(o, k + 1)));
+    }
+}
+
 pub mod decorators {
 use super::*;
 broadcast use axiom_string_to_string;
@@ -348,10 +385,61 @@ pub open spec fn cy_handlers(hs: Seq<ExceptHandler>, k: int) -> bool
     }
 }
 
+/// string_utils::format_docstring as a function of the text
+pub uninterp spec fn format_docstring_v(s: Seq<char>) -> Seq<char>;
+/// docstring.rs expr_to_string as a function of the annotation (and the source text it is handed)
+pub uninterp spec fn expr_str(e: Expr, content: Seq<char>) -> Seq<char>;
+
+/// docstring: the body's first statement, if it is an expression statement holding a string literal
+pub open spec fn spec_docstring(body: Seq<Stmt>) -> Option<Seq<char>> {
+    if body.len() == 0 { None } else {
+        match body[0] {
+            Stmt::Expr(x) => (match str_const(*x.value) { Some(s) => Some(format_docstring_v(s)), None => None }),
+            _ => None,
+        }
+    }
+}
+/// the yielded type of a generator annotation: `X[T, ...]` -> T, `X[T]` -> T, anything else -> the annotation
+pub open spec fn spec_yielded_type(e: Expr, content: Seq<char>) -> Seq<char> {
+    match e {
+        Expr::Subscript(sub) => match *sub.slice {
+            Expr::Tuple(t) => if t.elts@.len() > 0 { expr_str(t.elts@[0], content) } else { expr_str(e, content) },
+            _ => expr_str(*sub.slice, content),
+        },
+        _ => expr_str(e, content),
+    }
+}
+/// return type: none without annotation; the yielded type iff the body is a generator body (contains_yield)
+pub open spec fn spec_return_type(returns: Option<Box<Expr>>, body: Seq<Stmt>, content: Seq<char>) -> Option<Seq<char>> {
+    match returns {
+        None => None,
+        Some(a) => if cy_from(body, 0) { Some(spec_yielded_type(*a, content)) } else { Some(expr_str(*a, content)) },
+    }
+}
+
 // no field of the database is read by these methods (a field access would not compile: UNDECIDED)
 pub struct FixtureDatabase {}
 
+/// src/fixtures/string_utils.rs: string functions are left abstract here (bounded checking: Kani harnesses)
+pub mod string_utils {
+    use super::*;
+    /// callee stub: dedent / trim of the docstring text
+    #[verifier::external_body]
+    pub(crate) fn format_docstring(docstring: String) -> (r: String)
+        ensures r@ == format_docstring_v(docstring@)
+    { unimplemented!() }
+}
+
+pub mod fixtures {
+use super::*;
+broadcast use axiom_string_to_string;
 impl FixtureDatabase {
+    /// callee stub: the printer of annotation expressions (docstring.rs expr_to_string), result left abstract
+    #[verifier::external_body]
+    pub(crate) fn expr_to_string(&self, expr: &Expr, content: &str) -> (r: String)
+        ensures r@ == expr_str(*expr, content@)
+    { unimplemented!() }
+
     /// callee stub: binary search over the line index, result left abstract
     #[verifier::external_body]
     pub(crate) fn get_line_from_offset(&self, offset: usize, line_index: &[usize]) -> (r: usize)
@@ -519,6 +607,27 @@ impl FixtureDatabase {
         assert(fy_from(body@, i, line_index@) == opt_or(fy_stmt(*stmt, line_index@), fy_from(body@, i + 1, line_index@))); }
 @*/
 
+/*@ extract src/fixtures/docstring.rs extract_docstring
+@tags C03
+@ret r
+@sig
+    ensures opt_sv(r) == spec_docstring(body@),
+@*/
+
+/*@ extract src/fixtures/docstring.rs extract_yielded_type
+@tags C03
+@ret r
+@sig
+    ensures opt_sv(r) == Some(spec_yielded_type(*expr, content@)),
+@*/
+
+/*@ extract src/fixtures/docstring.rs extract_return_type
+@tags C03
+@ret r
+@sig
+    ensures opt_sv(r) == spec_return_type(*returns, body@, content@),
+@*/
+
 /*@ extract src/fixtures/docstring.rs contains_yield
 @tags C03 C12
 @ret r
@@ -536,13 +645,65 @@ impl FixtureDatabase {
     invariant it2.seq() == try_stmt.handlers@.as_ref(),
         cy_handlers(try_stmt.handlers@, 0) == cy_handlers(try_stmt.handlers@, it2.index@ as int),
         *stmt == Stmt::Try(*try_stmt), 0 <= oi < body@.len(), *stmt == body@[oi],
-        cy_from(body@, 0) == cy_from(body@, oi),
+        cy_from(body@, 0) == cy_from(body@, oi), cy_from(body@, oi) == (cy_stmt(*stmt) || cy_from(body@, oi + 1)),
 @loopstart 2
     proof { let i = it2.index@ as int; assert(*handler == try_stmt.handlers@[i]); }
 @after h 1
     proof { let i = it2.index@ as int; assert(try_stmt.handlers@[i] == ExceptHandler::ExceptHandler(*h));
-        assert(cy_handlers(try_stmt.handlers@, i) == (cy_from(h.body@, 0) || cy_handlers(try_stmt.handlers@, i + 1))); }
+        assert(cy_handlers(try_stmt.handlers@, i) == (cy_from(h.body@, 0) || cy_handlers(try_stmt.handlers@, i + 1)));
+        assert(decreases_to!(try_stmt.handlers => try_stmt.handlers@[i])); }
 @*/
+} // impl FixtureDatabase
+} // mod fixtures
+
+// ---- L2 (c): the two searches agree -------------------------------------------------------------------------
+/// KEY LEMMA: for every body, "is a generator" (contains_yield: the return annotation is unwrapped) holds iff a
+/// yield line is found (find_yield_line).  False before /repo commit "contains_yield must look where
+/// find_yield_line looks" (AsyncWith / AsyncFor / except handlers were missing on one side).
+//@tags C03
+pub proof fn lemma_C03_c_yield_agree(b: Seq<Stmt>, li: Seq<usize>)
+    ensures cy_from(b, 0) == (fy_from(b, 0, li) is Some),
+{
+    lemma_yield_agree_from(b, 0, li);
+}
+//@tags C03
+pub proof fn lemma_yield_agree_from(b: Seq<Stmt>, k: int, li: Seq<usize>)
+    ensures cy_from(b, k) == (fy_from(b, k, li) is Some),
+    decreases b, b.len() - k
+{
+    if 0 <= k < b.len() {
+        lemma_yield_agree_stmt(b[k], li);
+        lemma_yield_agree_from(b, k + 1, li);
+    }
+}
+//@tags C03
+pub proof fn lemma_yield_agree_stmt(s: Stmt, li: Seq<usize>)
+    ensures cy_stmt(s) == (fy_stmt(s, li) is Some),
+    decreases s, 0int
+{
+    match s {
+        Stmt::If(x) => { lemma_yield_agree_from(x.body@, 0, li); lemma_yield_agree_from(x.orelse@, 0, li); }
+        Stmt::For(x) => { lemma_yield_agree_from(x.body@, 0, li); lemma_yield_agree_from(x.orelse@, 0, li); }
+        Stmt::AsyncFor(x) => { lemma_yield_agree_from(x.body@, 0, li); lemma_yield_agree_from(x.orelse@, 0, li); }
+        Stmt::While(x) => { lemma_yield_agree_from(x.body@, 0, li); lemma_yield_agree_from(x.orelse@, 0, li); }
+        Stmt::With(x) => { lemma_yield_agree_from(x.body@, 0, li); }
+        Stmt::AsyncWith(x) => { lemma_yield_agree_from(x.body@, 0, li); }
+        Stmt::Try(x) => {
+            lemma_yield_agree_from(x.body@, 0, li); lemma_yield_agree_from(x.orelse@, 0, li);
+            lemma_yield_agree_from(x.finalbody@, 0, li); lemma_yield_agree_handlers(x.handlers@, 0, li);
+        }
+        _ => {}
+    }
+}
+//@tags C03
+pub proof fn lemma_yield_agree_handlers(hs: Seq<ExceptHandler>, k: int, li: Seq<usize>)
+    ensures cy_handlers(hs, k) == (fy_handlers(hs, k, li) is Some),
+    decreases hs, hs.len() - k
+{
+    if 0 <= k < hs.len() {
+        match hs[k] { ExceptHandler::ExceptHandler(h) => { lemma_yield_agree_from(h.body@, 0, li); } }
+        lemma_yield_agree_handlers(hs, k + 1, li);
+    }
 }
 
 } // verus!
